@@ -148,8 +148,9 @@ Else ==      /\ ~done /\ Top.k = "if" /\ Top.h.c # "else"
 \* next `case "b":` / `default:` of a switch
 NextCase(key) == /\ ~done /\ Top.k = "switch"
                  /\ WsBefore(Top) = "v"
-                 /\ \/ Top.h.key = "a" /\ key \in {"b", "default"}
-                    \/ Top.h.key = "b" /\ key = "default"
+                 \* every key at most once, in any order (Go allows `default` anywhere)
+                 /\ key # Top.h.key
+                 /\ \A i \in 1..Len(Top.parts) : Top.parts[i].key # key
                  /\ stack' = [stack EXCEPT ![Len(stack)] =
                                 [@ EXCEPT !.parts = Append(@, [key |-> Top.h.key, body |-> Top.items]),
                                           !.h = [key |-> key], !.items = <<>>]]
@@ -275,12 +276,17 @@ DenBranches(brs, els, prev, env, i) ==
          ELSE LET r == DenBranches(brs, els, prev, env, i + 1)
               IN [toks |-> r.toks, evs |-> << brs[i].c >> \o r.evs, prev |-> r.prev]
 
+\* Go's switch: the case whose key equals the value runs wherever it stands; `default` runs only if none does
+CaseIndex(cases, env) ==
+    LET exact == {i \in 1..Len(cases) : cases[i].key = env.s}
+        dflt  == {i \in 1..Len(cases) : cases[i].key = "default"}
+    IN  IF exact # {} THEN CHOOSE i \in exact : TRUE
+        ELSE IF dflt # {} THEN CHOOSE i \in dflt : TRUE ELSE 0
 DenCases(cases, prev, env, i) ==
-    IF i > Len(cases) THEN [toks |-> <<>>, evs |-> <<>>, prev |-> POpaque]
-    ELSE IF cases[i].key = env.s \/ cases[i].key = "default"
-         THEN LET r == DenList(cases[i].body, prev, env)
-              IN [toks |-> r.toks, evs |-> r.evs, prev |-> BodyEnd(cases[i].body, r)]
-         ELSE DenCases(cases, prev, env, i + 1)
+    LET k == CaseIndex(cases, env) IN
+    IF k = 0 THEN [toks |-> <<>>, evs |-> <<>>, prev |-> POpaque]
+    ELSE LET r == DenList(cases[k].body, prev, env)
+         IN [toks |-> r.toks, evs |-> r.evs, prev |-> BodyEnd(cases[k].body, r)]
 
 \* what a control-flow statement sees in front of it: only an inline trailer sibling keeps its claim
 \* (the statement starts a new line, so whitespace is always present and nothing can be "mustnot")
